@@ -6,6 +6,7 @@ package main
 import (
 	"bytes"
 	stdjson "encoding/json"
+	"errors"
 	"fmt"
 	"io"
 	"math"
@@ -157,8 +158,18 @@ func execStream(w *run.W, a *streamArgs) {
 		} else {
 			name = "Decode"
 			var x1, x2 any
-			o1 = guard(func() error { return d1.Decode(&x1) })
-			o2 = guard(func() error { return d2.Decode(&x2) })
+			if r.IntN(4) == 0 {
+				// a typed target: values of another kind are refused with a type error AFTER they were consumed,
+				// and the Decoder remains usable (the script goes on, see below)
+				var i1, i2 int
+				o1 = guard(func() error { return d1.Decode(&i1) })
+				o2 = guard(func() error { return d2.Decode(&i2) })
+				x1, x2 = i1, i2
+				w.Count("Decode_stream_typed_target", 1)
+			} else {
+				o1 = guard(func() error { return d1.Decode(&x1) })
+				o2 = guard(func() error { return d2.Decode(&x2) })
+			}
 			if !o1.failed() && !o2.failed() {
 				if d := sameValue(reflect.ValueOf(&x1).Elem(), reflect.ValueOf(&x2).Elem(), "", "root", "", 0); d != nil {
 					r1, r2 = "value:"+d.a, "value:"+d.b
@@ -186,6 +197,17 @@ func execStream(w *run.W, a *streamArgs) {
 			// clean stream are legitimate: Decode where no value is next, e.g. at a closing
 			// bracket, or a semantic error such as a number out of range.)
 			w.Count(name+"_stream_both_fail", 1)
+			var te1 *stdjson.UnmarshalTypeError
+			var te2 *v1.UnmarshalTypeError
+			if name == "Decode" && o1.panic == nil && o2.panic == nil && errors.As(o1.err, &te1) && errors.As(o2.err, &te2) {
+				// a semantic error: the value was consumed on both sides and both Decoders stay usable; what
+				// More and InputOffset answer from here on is compared at the next successful read
+				w.Count("stream_semantic_errors_script_continues", 1)
+				if len(stack) > 0 && stack[len(stack)-1] == '{' {
+					expectKey = true
+				}
+				continue
+			}
 			e1, e2 := o1.panic == nil && o1.err == io.EOF, o2.panic == nil && o2.err == io.EOF
 			switch {
 			case e1 && e2:
